@@ -594,8 +594,14 @@ def run(s):
             Vau = df["V"].to_numpy() / ANG3
             msg = None
             h = (V.max() * vr - V.min() / vr) / (ntv - 1)          # the EoS grid has ntv points in every mode
-            scaleP = abs(numpy.array([dEdV(v) for v in V])).max() * GPA
-            tolP = scaleP * (2e-3 + 30 * (h / V.mean()) ** 2)
+            # P comes out of a central difference of the fitted energy on the EoS grid: its truncation error is h^2 |d3E/dV3| / 6 on the REPORTED volume range (which
+            # extends beyond the input volumes by the expansion ratio, where the curvature is largest), not a fraction of the pressure at the input volumes
+            fine = numpy.linspace(min(Vau.min(), V.min() / vr), max(Vau.max(), V.max() * vr), 2001)
+            d1 = numpy.array([dEdV(v) for v in fine])
+            d3 = numpy.gradient(numpy.gradient(d1, fine), fine)
+            pin = abs(numpy.array([dEdV(v) for v in V])).max() * GPA
+            scaleP = max(abs(d1).max() * GPA, pin)
+            tolP = 2e-3 * scaleP + 3.0 * (h ** 2 / 6.0) * abs(d3).max() * GPA + pin * 30 * (h / V.mean()) ** 2
             Pexact = -numpy.array([dEdV(v) for v in Vau]) * GPA
             inner = slice(2, -2) if mode == "volume" else slice(None)
             if mode == "none":
